@@ -1,5 +1,5 @@
 (* Conc/SharedP.v -- proofs about one write transaction used from several threads *)
-From Coq Require Import List NArith Bool Lia PeanoNat.
+From Coq Require Import List NArith Bool Lia PeanoNat Permutation.
 From RV Require Import Conc.Shared.
 Import ListNotations.
 Open Scope N_scope.
@@ -20,41 +20,94 @@ Proof.
   - apply Nat.eqb_eq in E. subst. destruct (Nat.eqb t t2) eqn:E2; [apply Nat.eqb_eq in E2; congruence|auto].
   - simpl. destruct (Nat.eqb t t2); auto.
 Qed.
-Lemma nget_set_at : forall s t c n t', nget t' (s_at (set_at s t c n)) = if Nat.eqb t' t then Some (c, n) else nget t' (s_at s).
+(* the two shapes the table of calls in progress takes after a step of thread t *)
+Lemma at_self_set : forall A t (x : A) l, nget t ((t, x) :: ndel t l) = Some x.
+Proof. intros. simpl. rewrite Nat.eqb_refl. reflexivity. Qed.
+Lemma at_other_set : forall A t t' (x : A) l, t' <> t -> nget t' ((t, x) :: ndel t l) = nget t' l.
 Proof.
-  intros. unfold set_at, upd. simpl. destruct (Nat.eqb t' t) eqn:E; [reflexivity|].
-  apply nget_ndel_other. intro. subst. rewrite Nat.eqb_refl in E. discriminate.
+  intros. simpl. destruct (Nat.eqb t' t) eqn:E; [apply Nat.eqb_eq in E; congruence|]. apply nget_ndel_other. assumption.
 Qed.
-Lemma nget_finish : forall s t c r t', nget t' (s_at (finish s t c r)) = if Nat.eqb t' t then None else nget t' (s_at s).
+Lemma at_self_fin : forall A t (l : list (nat * A)), nget t (ndel t l) = None.
+Proof. intros. apply nget_ndel_same. Qed.
+Lemma at_other_fin : forall A t t' (l : list (nat * A)), t' <> t -> nget t' (ndel t l) = nget t' l.
+Proof. intros. apply nget_ndel_other. assumption. Qed.
+
+Lemma holds_eq : forall s t, holds s t = true -> s_lock s = Some t.
+Proof. unfold holds. intros s t H. destruct (s_lock s); [|discriminate]. apply Nat.eqb_eq in H. subst. reflexivity. Qed.
+Lemma lock_free_eq : forall s, lock_free s = true -> s_lock s = None.
+Proof. unfold lock_free. intros s H. destruct (s_lock s); [discriminate|reflexivity]. Qed.
+Lemma fholds_eq : forall s t, fholds s t = true -> s_flock s = Some t.
+Proof. unfold fholds. intros s t H. destruct (s_flock s); [|discriminate]. apply Nat.eqb_eq in H. subst. reflexivity. Qed.
+Lemma flock_free_eq : forall s, flock_free s = true -> s_flock s = None.
+Proof. unfold flock_free. intros s H. destruct (s_flock s); [discriminate|reflexivity]. Qed.
+Lemma sholds_eq : forall s t, sholds s t = true -> s_syslock s = Some t.
+Proof. unfold sholds. intros s t H. destruct (s_syslock s); [|discriminate]. apply Nat.eqb_eq in H. subst. reflexivity. Qed.
+Lemma sys_free_eq : forall s, sys_free s = true -> s_syslock s = None.
+Proof. unfold sys_free. intros s H. destruct (s_syslock s); [discriminate|reflexivity]. Qed.
+Lemma owner_is_eq : forall tbl t, owner_is tbl t = true -> tb_owner tbl = Some t.
+Proof. unfold owner_is. intros tbl t H. destruct (tb_owner tbl); [|discriminate]. apply Nat.eqb_eq in H. subst. reflexivity. Qed.
+
+Lemma sname_beq_eq : forall a b, sname_beq a b = true -> a = b.
+Proof. exact internal_sname_dec_bl. Qed.
+
+(* ---------------------------------------------------------------- taking a step apart *)
+Lemma sstep_enter_inv : forall t c s s', sstep t (LEnter c) s = Some s' -> nget t (s_at s) = None /\ step_enter t c s = Some s'.
+Proof. intros t c s s' H. simpl in H. destruct (nget t (s_at s)); [discriminate|auto]. Qed.
+Lemma sstep_sec_inv : forall t n s s', sstep t (LSec n) s = Some s' ->
+  exists c, nget t (s_at s) = Some (c, Some n) /\ step_sec t c n s = Some s'.
 Proof.
-  intros. unfold finish, upd. simpl. destruct (Nat.eqb t' t) eqn:E.
-  - apply Nat.eqb_eq in E. subst. apply nget_ndel_same.
-  - apply nget_ndel_other. intro. subst. rewrite Nat.eqb_refl in E. discriminate.
+  intros t n s s' H. simpl in H. destruct (nget t (s_at s)) as [[c [n'|]]|]; try discriminate.
+  destruct (sname_beq n n') eqn:E; [|discriminate]. apply sname_beq_eq in E. subst. exists c. auto.
 Qed.
 
+Ltac lockfacts :=
+  repeat match goal with
+  | H : holds _ _ = true |- _ => apply holds_eq in H
+  | H : lock_free _ = true |- _ => apply lock_free_eq in H
+  | H : fholds _ _ = true |- _ => apply fholds_eq in H
+  | H : flock_free _ = true |- _ => apply flock_free_eq in H
+  | H : sholds _ _ = true |- _ => apply sholds_eq in H
+  | H : sys_free _ = true |- _ => apply sys_free_eq in H
+  | H : owner_is _ _ = true |- _ => apply owner_is_eq in H
+  end.
+
+(* projections of the successor state: the setters are only ever unfolded under a projection *)
+Ltac proj :=
+  cbn [s_dirty s_tracking s_lock s_valid s_next_sp s_pins s_base s_tables s_next_page s_tracked s_at s_handles s_results
+       s_flock s_syslock s_freed s_replaced s_try_merge s_try_esp
+       set_at finish set_dirty set_tracking set_lock set_flock set_syslock set_tables set_freed set_replaced
+       alloc_page set_savepoints mk] in *.
+
+(* every way a call can be entered / a section can run, with the successor state as an explicit term *)
+Ltac explode_enter H :=
+  unfold step_enter in H;
+  repeat (first [ progress unfold continue_op in H | progress cbv beta iota in H | bm H ]);
+  lockfacts; injection H as H; subst.
+Ltac explode_sec H :=
+  unfold step_sec in H;
+  repeat (first [ progress unfold sec_set_dirty, sec_savepoint, sec_drop, sec_op, sec_delete, sec_hold, continue_op in H
+                 | progress cbv beta iota in H | bm H ]);
+  lockfacts; injection H as H; subst.
+
 (* ================================================================ savepoint / tracking consistency *)
+Definition in_esp_locked (n : sname) : bool :=
+  match n with NEspLocked | NRegisterRead | NAllocSavepoint => true | _ => false end.
 Definition in_esp_critical (n : sname) : bool :=
   match n with NRegisterRead | NAllocSavepoint => true | _ => false end.
-Definition in_open (n : sname) : bool :=
-  match n with NSetDirty | NSetDirtyStored | NAnySavepoint => true | _ => false end.
+(* the calls that store the dirty flag: they hold the tables mutex from their first pause point on *)
+Definition is_dirtying (c : scall) : bool := match c with SOpen _ | SDelete _ _ _ => true | _ => false end.
 Definition after_store (n : sname) : bool :=
-  match n with NSetDirtyStored | NAnySavepoint => true | _ => false end.
+  match n with NSetDirtyStored | NAnySavepoint | NFreedPre | NMerge | NFreedLocked => true | _ => false end.
 
 Record sinv (s : sst) : Prop := {
   j_dirty : s_tracking s = false -> s_dirty s = true;
   j_valid : s_tracking s = false -> s_valid s = [];
   j_esp : forall t h n, nget t (s_at s) = Some (SSavepoint h, Some n) ->
-            (n = NEspLocked \/ in_esp_critical n = true -> s_lock s = Some t) /\
+            (in_esp_locked n = true -> s_lock s = Some t) /\
             (in_esp_critical n = true -> s_dirty s = false);
-  j_open : forall t tb n, nget t (s_at s) = Some (SOpen tb, Some n) ->
-            in_open n = true /\ s_lock s = Some t /\ (after_store n = true -> s_dirty s = true)
+  j_open : forall t c n, nget t (s_at s) = Some (c, Some n) -> is_dirtying c = true ->
+            s_lock s = Some t /\ (after_store n = true -> s_dirty s = true)
 }.
-
-Lemma holds_eq : forall s t, holds s t = true -> s_lock s = Some t.
-Proof. unfold holds. intros s t H. destruct (s_lock s); [|discriminate]. apply Nat.eqb_eq in H. subst. reflexivity. Qed.
-
-Lemma lock_free_eq : forall s, lock_free s = true -> s_lock s = None.
-Proof. unfold lock_free. intros s H. destruct (s_lock s); [discriminate|reflexivity]. Qed.
 
 (* what a step of thread t may change, and what it owes for itself *)
 Lemma sinv_update : forall s s' t,
@@ -65,80 +118,72 @@ Lemma sinv_update : forall s s' t,
   (s_tracking s' = false -> s_dirty s' = true) ->
   (s_tracking s' = false -> s_valid s' = []) ->
   (forall h n, nget t (s_at s') = Some (SSavepoint h, Some n) ->
-     (n = NEspLocked \/ in_esp_critical n = true -> s_lock s' = Some t) /\ (in_esp_critical n = true -> s_dirty s' = false)) ->
-  (forall tb n, nget t (s_at s') = Some (SOpen tb, Some n) ->
-     in_open n = true /\ s_lock s' = Some t /\ (after_store n = true -> s_dirty s' = true)) ->
+     (in_esp_locked n = true -> s_lock s' = Some t) /\ (in_esp_critical n = true -> s_dirty s' = false)) ->
+  (forall c n, nget t (s_at s') = Some (c, Some n) -> is_dirtying c = true ->
+     s_lock s' = Some t /\ (after_store n = true -> s_dirty s' = true)) ->
   sinv s'.
 Proof.
   intros s s' t J Hat Hl Hd H1 H2 He Ho. constructor; [exact H1|exact H2| |].
   - intros t' h n Hg. destruct (Nat.eq_dec t' t) as [->|Hne]; [apply (He h n); exact Hg|].
     rewrite (Hat t' Hne) in Hg. destruct (j_esp s J t' h n Hg) as [Ha Hb]. split.
     + intro Hn. specialize (Ha Hn). destruct Hl as [Hl|[Hl|Hl]]; congruence.
-    + intro Hn. specialize (Hb Hn). assert (Hlk : s_lock s = Some t') by (apply Ha; right; exact Hn).
+    + intro Hn. specialize (Hb Hn). assert (Hlk : s_lock s = Some t') by (apply Ha; destruct n; simpl in *; congruence).
       destruct Hd as [Hd|Hd]; congruence.
-  - intros t' tb n Hg. destruct (Nat.eq_dec t' t) as [->|Hne]; [apply (Ho tb n); exact Hg|].
-    rewrite (Hat t' Hne) in Hg. destruct (j_open s J t' tb n Hg) as (Ha & Hb & Hc). split; [exact Ha|]. split.
+  - intros t' c n Hg Hc. destruct (Nat.eq_dec t' t) as [->|Hne]; [apply (Ho c n); assumption|].
+    rewrite (Hat t' Hne) in Hg. destruct (j_open s J t' c n Hg Hc) as (Hb & Hc'). split.
     + destruct Hl as [Hl|[Hl|Hl]]; congruence.
-    + intro Hn. specialize (Hc Hn). destruct Hd as [Hd|Hd]; congruence.
+    + intro Hn. specialize (Hc' Hn). destruct Hd as [Hd|Hd]; congruence.
 Qed.
 
-Lemma at_other_set : forall s t c n t', t' <> t -> nget t' (s_at (set_at s t c n)) = nget t' (s_at s).
-Proof. intros. rewrite nget_set_at. destruct (Nat.eqb t' t) eqn:E; [apply Nat.eqb_eq in E; congruence|reflexivity]. Qed.
-Lemma at_other_fin : forall s t c r t', t' <> t -> nget t' (s_at (finish s t c r)) = nget t' (s_at s).
-Proof. intros. rewrite nget_finish. destruct (Nat.eqb t' t) eqn:E; [apply Nat.eqb_eq in E; congruence|reflexivity]. Qed.
-Lemma at_self_set : forall s t c n, nget t (s_at (set_at s t c n)) = Some (c, n).
-Proof. intros. rewrite nget_set_at, Nat.eqb_refl. reflexivity. Qed.
-Lemma at_self_fin : forall s t c r, nget t (s_at (finish s t c r)) = None.
-Proof. intros. rewrite nget_finish, Nat.eqb_refl. reflexivity. Qed.
-
-Ltac lockfacts :=
-  repeat match goal with
-  | H : holds _ _ = true |- _ => apply holds_eq in H
-  | H : lock_free _ = true |- _ => apply lock_free_eq in H
-  end.
 Ltac side J :=
+  proj;
   first
   [ solve [intros ? Hne; first [rewrite at_other_fin by exact Hne | rewrite at_other_set by exact Hne]; reflexivity]
   | solve [intros ? ? Hself; first [rewrite at_self_fin in Hself | rewrite at_self_set in Hself]; discriminate]
+  | solve [intros ? ? Hself ?; first [rewrite at_self_fin in Hself | rewrite at_self_set in Hself]; discriminate]
+  | solve [intros ? ? Hself Hd; rewrite at_self_set in Hself; inv Hself; discriminate Hd]
   | solve [left; reflexivity]
   | solve [right; left; assumption]
   | solve [right; right; assumption]
   | solve [right; assumption]
-  | solve [simpl; apply J]
-  | solve [simpl; let Hx := fresh "Hx" in intro Hx; first [discriminate Hx | apply J; congruence]]
-  | solve [simpl; auto]
+  | solve [apply J]
+  | solve [let Hx := fresh "Hx" in intro Hx; first [discriminate Hx | apply J; congruence]]
+  | solve [auto]
   | idtac ].
 
 Lemma sstep_sinv : forall t l s s', sinv s -> sstep t l s = Some s' -> sinv s'.
 Proof.
-  intros t l s s' J H. unfold sstep in H.
-  destruct l as [c|nm].
-  - destruct (nget t (s_at s)) eqn:Hat; [discriminate|].
-    destruct c as [tb|tb k v|tb k|tb|h|h].
-    + repeat bm H; lockfacts; inv H; apply (sinv_update s _ t J); side J.
-      all: try (intros tb' n Hself; rewrite at_self_set in Hself; inv Hself; repeat split; try reflexivity; discriminate).
-    + repeat bm H; inv H; apply (sinv_update s _ t J); side J.
-    + repeat bm H; inv H; apply (sinv_update s _ t J); side J.
-    + repeat bm H; inv H; apply (sinv_update s _ t J); side J.
-    + inv H. apply (sinv_update s _ t J); side J.
-      intros h' n Hself. rewrite at_self_set in Hself. inv Hself. split; [intros [Hc|Hc]; discriminate|discriminate].
-    + bm H; inv H; apply (sinv_update s _ t J); side J.
-  - destruct (nget t (s_at s)) as [[c [n'|]]|] eqn:Hat; try discriminate.
-    destruct c as [tb|tb k v|tb k|tb|h|h]; destruct nm; destruct n'; simpl in H; try discriminate.
-    (* open_table sections *)
-    1-3: destruct (j_open s J t _ _ Hat) as (Qa & Qb & Qc).
-    (* ephemeral_savepoint sections *)
-    4-10: destruct (j_esp s J t _ _ Hat) as (Pa & Pb).
-    all: repeat bm H; lockfacts; inv H.
-    all: apply (sinv_update s _ t J); side J.
-    all: try (intros ? ? Hself; rewrite at_self_set in Hself; inv Hself; simpl;
-              repeat split; auto; try discriminate; try (intros [?|?]; discriminate); try (intros; discriminate)).
-    + (* open_table, T.any_savepoint with a valid savepoint: tracking stays as it is *)
-      simpl. intro Ht. pose proof (j_valid s J Ht) as Hv. congruence.
-    + (* ephemeral_savepoint, T.alloc_savepoint: the dirty check was made under the mutex that is still held *)
+  intros t l s s' J H. destruct l as [c|nm].
+  - apply sstep_enter_inv in H. destruct H as [Hat H].
+    explode_enter H. all: (apply (sinv_update s _ t J); side J).
+    all: try (intros ? ? Hself Hd; rewrite at_self_set in Hself; inv Hself; simpl; split; [reflexivity|discriminate]).
+    all: try (intros ? ? Hself; rewrite at_self_set in Hself; inv Hself; split; discriminate).
+  - apply sstep_sec_inv in H. destruct H as (c & Hat & H).
+    destruct c; simpl in H; try discriminate.
+    + (* open_table *)
+      destruct (j_open s J t _ _ Hat eq_refl) as (Qb & Qc).
+      explode_sec H. all: (apply (sinv_update s _ t J); side J).
+      all: try (intros ? ? Hself Hd; rewrite at_self_set in Hself; inv Hself; simpl; split; auto; discriminate).
+      all: try (intro Ht; pose proof (j_valid s J Ht) as Hv; congruence).
+    + (* ephemeral_savepoint *)
+      destruct (j_esp s J t _ _ Hat) as (Pa & Pb).
+      explode_sec H. all: (apply (sinv_update s _ t J); side J).
+      all: try (intros ? ? Hself; rewrite at_self_set in Hself; inv Hself; simpl;
+                repeat split; auto; try discriminate; try (intros; discriminate)).
       simpl. intro Ht. pose proof (j_dirty s J Ht) as Hd. rewrite (Pb eq_refl) in Hd. discriminate.
     + (* Savepoint::drop *)
+      explode_sec H. all: (apply (sinv_update s _ t J); side J).
       simpl. intro Ht. rewrite (j_valid s J Ht). reflexivity.
+    + (* freed_pages sections of a table operation *)
+      explode_sec H. all: (apply (sinv_update s _ t J); side J).
+    + (* non-dirtying holders *)
+      explode_sec H. all: (apply (sinv_update s _ t J); side J).
+    + (* delete_table *)
+      destruct (j_open s J t _ _ Hat eq_refl) as (Qb & Qc).
+      explode_sec H. all: (apply (sinv_update s _ t J); side J).
+      all: try (intros ? ? Hself Hd; rewrite at_self_set in Hself; inv Hself; simpl; split; auto; try discriminate;
+                intros; apply Qc; reflexivity).
+      all: try (simpl; intro Ht; pose proof (j_valid s J Ht) as Hv; congruence).
 Qed.
 
 Lemma srun_sinv : forall log s s', sinv s -> srun log s = Some s' -> sinv s'.
@@ -147,22 +192,30 @@ Proof.
   destruct (sstep t l s) as [s1|] eqn:E; [|discriminate]. eapply IH; [|exact H]. eapply sstep_sinv; eauto.
 Qed.
 
+Lemma sinit_cfg_sinv : forall a b pre tabs comm, sinv (sinit_cfg a b pre tabs comm).
+Proof. intros. constructor; simpl; try discriminate. Qed.
+Lemma sinit_full_sinv : forall pre tabs comm, sinv (sinit_full pre tabs comm).
+Proof. intros. apply sinit_cfg_sinv. Qed.
 Lemma sinit_tables_sinv : forall pre tabs, sinv (sinit_tables pre tabs).
-Proof.
-  intros pre tabs. constructor; simpl; try discriminate.
-Qed.
+Proof. intros. apply sinit_cfg_sinv. Qed.
 Lemma sinit_sinv : forall pre, sinv (sinit pre).
-Proof. intro. apply sinit_tables_sinv. Qed.
+Proof. intro. apply sinit_cfg_sinv. Qed.
 
 (* savepoint_tracking_consistent: whatever the threads do and however their sections interleave, allocation
    tracking is never off while a savepoint is valid (so restoring one can always free this transaction's pages),
    and it is only ever switched off in a dirty transaction *)
-Theorem savepoint_tracking_consistent : forall pre log s,
-  srun log (sinit pre) = Some s -> s_tracking s = false -> s_valid s = [] /\ s_dirty s = true.
+Theorem savepoint_tracking_consistent_full : forall pre tabs comm log s,
+  srun log (sinit_full pre tabs comm) = Some s -> s_tracking s = false -> s_valid s = [] /\ s_dirty s = true.
 Proof.
-  intros pre log s H Ht. pose proof (srun_sinv log _ _ (sinit_sinv pre) H) as J.
+  intros pre tabs comm log s H Ht. pose proof (srun_sinv log _ _ (sinit_full_sinv pre tabs comm) H) as J.
   split; [apply (j_valid s J Ht)|apply (j_dirty s J Ht)].
 Qed.
+Theorem savepoint_tracking_consistent : forall pre log s,
+  srun log (sinit pre) = Some s -> s_tracking s = false -> s_valid s = [] /\ s_dirty s = true.
+Proof. intros pre log s. apply savepoint_tracking_consistent_full. Qed.
+Theorem savepoint_tracking_consistent_from : forall pre tabs log s,
+  srun log (sinit_tables pre tabs) = Some s -> s_tracking s = false -> s_valid s = [] /\ s_dirty s = true.
+Proof. intros pre tabs log s. apply savepoint_tracking_consistent_full. Qed.
 
 (* the dirty check and the registration of ephemeral_savepoint() happen inside one critical section of the
    `tables` mutex: while a thread is between them, it holds the mutex and the transaction is not dirty *)
@@ -171,61 +224,132 @@ Theorem savepoint_registration_serialized : forall pre log s t h n,
   s_lock s = Some t /\ s_dirty s = false.
 Proof.
   intros pre log s t h n H Hat Hn. pose proof (srun_sinv log _ _ (sinit_sinv pre) H) as J.
-  destruct (j_esp s J t h n Hat) as [Ha Hb]. split; [apply Ha; right; exact Hn|apply Hb; exact Hn].
+  destruct (j_esp s J t h n Hat) as [Ha Hb]. split; [apply Ha; destruct n; simpl in *; congruence|apply Hb; exact Hn].
+Qed.
+
+(* ================================================================ savepoint eligibility = dirtiness *)
+(* the dirty flag after a log: stored by the steps `LSec NSetDirty` (open_table / delete_table under the tables mutex) and by nothing else *)
+Lemma sstep_dirty : forall t l s s', sstep t l s = Some s' -> s_dirty s' = s_dirty s || is_store l.
+Proof.
+  intros t l s s' H. destruct l as [c|nm].
+  - apply sstep_enter_inv in H. destruct H as [_ H]. simpl. rewrite orb_false_r.
+    explode_enter H; proj; reflexivity.
+  - apply sstep_sec_inv in H. destruct H as (c & _ & H).
+    destruct c; simpl in H; try discriminate; explode_sec H; proj; simpl; rewrite ?orb_false_r, ?orb_true_r; first [reflexivity|assumption|congruence].
+Qed.
+
+Lemma srun_dirty : forall log s s', srun log s = Some s' -> s_dirty s' = s_dirty s || dirtied log.
+Proof.
+  induction log as [|[t l] log IH]; intros s s' H; simpl in H.
+  - inv H. simpl. rewrite orb_false_r. reflexivity.
+  - destruct (sstep t l s) as [s1|] eqn:E; [|discriminate].
+    rewrite (IH s1 s' H), (sstep_dirty t l s s1 E). unfold dirtied. simpl. rewrite orb_assoc. reflexivity.
+Qed.
+
+Lemma sstep_flags : forall t l s s', sstep t l s = Some s' -> s_try_merge s' = s_try_merge s /\ s_try_esp s' = s_try_esp s.
+Proof.
+  intros t l s s' H. destruct l as [c|nm].
+  - apply sstep_enter_inv in H. destruct H as [_ H]. explode_enter H; proj; split; first [reflexivity|congruence].
+  - apply sstep_sec_inv in H. destruct H as (c & _ & H).
+    destruct c; simpl in H; try discriminate; explode_sec H; proj; split; first [reflexivity|congruence].
+Qed.
+Lemma srun_flags : forall log s s', srun log s = Some s' -> s_try_merge s' = s_try_merge s /\ s_try_esp s' = s_try_esp s.
+Proof.
+  induction log as [|[t l] log IH]; intros s s' H; simpl in H; [inv H; auto|].
+  destruct (sstep t l s) as [s1|] eqn:E; [|discriminate].
+  destruct (IH s1 s' H) as [A B]. destruct (sstep_flags t l s s1 E) as [C D]. split; congruence.
+Qed.
+
+(* savepoint_outcome_by_dirtiness: the step that runs the dirty check of a savepoint request (it starts at X.esp.locked,
+   under the tables mutex) has an outcome that depends only on whether a store of the dirty flag precedes it in the log:
+   if one does, the call returns InvalidSavepoint there and then; if none does, the request goes on to its registration
+   (and, see savepoint_refusal_needs_store, can no longer be refused) *)
+Theorem savepoint_outcome_by_dirtiness : forall pre tabs comm log s t s',
+  srun log (sinit_full pre tabs comm) = Some s -> sstep t (LSec NEspLocked) s = Some s' ->
+  exists h, nget t (s_at s) = Some (SSavepoint h, Some NEspLocked) /\
+    if dirtied log
+    then nget t (s_at s') = None /\ s_results s' = (t, SSavepoint h, SErrDirty) :: s_results s
+    else nget t (s_at s') = Some (SSavepoint h, Some NRegisterRead) /\ s_results s' = s_results s.
+Proof.
+  intros pre tabs comm log s t s' Hr H.
+  pose proof (srun_dirty log _ _ Hr) as Hd. simpl in Hd.
+  apply sstep_sec_inv in H. destruct H as (c & Hat & H).
+  destruct c; simpl in H; try discriminate.
+  - exists h. split; [exact Hat|]. rewrite <- Hd. explode_sec H; proj.
+    + split; [apply at_self_fin|reflexivity].
+    + split; [apply at_self_set|reflexivity].
+  - explode_sec H.
+  - explode_sec H.
+Qed.
+
+(* a request is refused ONLY by its dirty check on a dirty transaction: no step of the code as it is (s_try_esp = false)
+   adds an InvalidSavepoint result in a clean transaction -- in particular not the step that finds the tables mutex busy *)
+Lemma sstep_refusal : forall t l s s' t' c, sstep t l s = Some s' -> s_try_esp s = false ->
+  In (t', c, SErrDirty) (s_results s') -> In (t', c, SErrDirty) (s_results s) \/ (l = LSec NEspLocked /\ s_dirty s = true).
+Proof.
+  intros t l s s' t' c H Hf Hin. destruct l as [c0|nm].
+  - apply sstep_enter_inv in H. destruct H as [_ H].
+    explode_enter H; proj; try (left; exact Hin); destruct Hin as [Hin|Hin]; try discriminate Hin; left; exact Hin.
+  - apply sstep_sec_inv in H. destruct H as (c0 & _ & H).
+    destruct c0; simpl in H; try discriminate; explode_sec H; proj; try (left; exact Hin);
+      try (destruct Hin as [Hin|Hin]; [try discriminate Hin|left; exact Hin]);
+      try congruence; try (right; split; [reflexivity|first [assumption|reflexivity]]).
+Qed.
+
+Theorem savepoint_refusal_needs_store : forall pre tabs comm log s t c,
+  srun log (sinit_full pre tabs comm) = Some s -> In (t, c, SErrDirty) (s_results s) -> dirtied log = true.
+Proof.
+  intros pre tabs comm log s t c Hr Hin.
+  assert (G : forall log s0 s, srun log s0 = Some s -> s_try_esp s0 = false -> In (t, c, SErrDirty) (s_results s) ->
+              In (t, c, SErrDirty) (s_results s0) \/ s_dirty s = true).
+  { clear. induction log as [|[t0 l] log IH]; intros s0 s H Hf Hin; simpl in H; [inv H; auto|].
+    destruct (sstep t0 l s0) as [s1|] eqn:E; [|discriminate].
+    destruct (sstep_flags t0 l s0 s1 E) as [_ Hf1]. rewrite Hf in Hf1.
+    destruct (IH s1 s H Hf1 Hin) as [Hin1|Hd]; [|right; exact Hd].
+    destruct (sstep_refusal t0 l s0 s1 t c E Hf Hin1) as [Hin0|[_ Hd0]]; [left; exact Hin0|].
+    right. rewrite (srun_dirty log s1 s H), (sstep_dirty t0 l s0 s1 E), Hd0. reflexivity. }
+  destruct (G log _ s Hr eq_refl Hin) as [Hin0|Hd]; [simpl in Hin0; contradiction|].
+  rewrite (srun_dirty log _ s Hr) in Hd. simpl in Hd. exact Hd.
 Qed.
 
 (* ================================================================ per-table independence *)
-Lemma tget_tset_same : forall k v l, tget k (tset k v l) = Some v.
-Proof. induction l as [|[k' v'] l IH]; simpl; [rewrite N.eqb_refl; reflexivity|]. destruct (N.eqb k k') eqn:E; simpl; rewrite ?N.eqb_refl, ?E; auto. Qed.
-Lemma tget_tset_other : forall k k' v l, k <> k' -> tget k (tset k' v l) = tget k l.
+Lemma tget_tset : forall k k' v l, tget k (tset k' v l) = if N.eqb k k' then Some v else tget k l.
 Proof.
-  induction l as [|[k2 v2] l IH]; intros Hne; simpl.
-  - destruct (N.eqb k k') eqn:E; [apply N.eqb_eq in E; congruence|reflexivity].
+  induction l as [|[k2 v2] l IH]; simpl.
+  - destruct (N.eqb k k'); reflexivity.
   - destruct (N.eqb k' k2) eqn:E.
-    + apply N.eqb_eq in E. subst. simpl. destruct (N.eqb k k2) eqn:E2; [apply N.eqb_eq in E2; congruence|reflexivity].
-    + simpl. destruct (N.eqb k k2); auto.
+    + apply N.eqb_eq in E. subst. simpl. destruct (N.eqb k k2); reflexivity.
+    + simpl. destruct (N.eqb k k2) eqn:E2.
+      * apply N.eqb_eq in E2. subst. rewrite N.eqb_sym, E. reflexivity.
+      * exact IH.
 Qed.
+Lemma tget_tset_same : forall k v l, tget k (tset k v l) = Some v.
+Proof. intros. rewrite tget_tset, N.eqb_refl. reflexivity. Qed.
+Lemma tget_tset_other : forall k k' v l, k <> k' -> tget k (tset k' v l) = tget k l.
+Proof. intros. rewrite tget_tset. destruct (N.eqb k k') eqn:E; [apply N.eqb_eq in E; congruence|reflexivity]. Qed.
 
-Lemma table_map_tset : forall s tb tb' tbl tables',
-  tables' = tset tb' tbl (s_tables s) ->
-  forall s', s_tables s' = tables' ->
-  table_map s' tb = if N.eqb tb tb' then tb_map tbl else table_map s tb.
-Proof.
-  intros s tb tb' tbl tables' -> s' Hs. unfold table_map. rewrite Hs.
-  destruct (N.eqb tb tb') eqn:E.
-  - apply N.eqb_eq in E. subst. rewrite tget_tset_same. reflexivity.
-  - rewrite tget_tset_other; [reflexivity|]. intro. subst. rewrite N.eqb_refl in E. discriminate.
-Qed.
+(* case analysis on every table lookup of the successor state *)
+Ltac tcases :=
+  repeat rewrite tget_tset;
+  rewrite ?N.eqb_refl;
+  repeat match goal with
+  | |- context [N.eqb ?a ?b] =>
+    let E := fresh "Eb" in destruct (N.eqb a b) eqn:E; [apply N.eqb_eq in E; subst|]
+  end;
+  repeat match goal with
+  | Hx : tget ?a ?l = _ |- context [tget ?a ?l] => rewrite Hx
+  end;
+  simpl; try reflexivity; try congruence.
 
 (* one step changes the contents of table tb exactly as tb's own operation says, and only then *)
 Lemma sstep_table : forall t l s s' tb, sstep t l s = Some s' ->
   table_map s' tb = match l with LEnter c => apply_call tb (table_map s tb) c | LSec _ => table_map s tb end.
 Proof.
-  intros t l s s' tb H. unfold sstep in H. destruct l as [c|nm].
-  - destruct (nget t (s_at s)); [discriminate|].
-    destruct c as [tb'|tb' k v|tb' k|tb'|h|h]; simpl.
-    + repeat bm H; inv H; try reflexivity.
-      all: unfold table_map; simpl; destruct (N.eq_dec tb tb') as [->|Hne];
-        [rewrite tget_tset_same; simpl; repeat match goal with Hx : tget _ _ = _ |- _ => rewrite Hx end; reflexivity
-        |rewrite tget_tset_other by exact Hne; reflexivity].
-    + repeat bm H; inv H.
-      all: unfold table_map; simpl; destruct (N.eqb tb tb') eqn:Eb;
-        [apply N.eqb_eq in Eb; subst; rewrite tget_tset_same; simpl;
-         repeat match goal with Hx : tget _ _ = _ |- _ => rewrite Hx end; reflexivity
-        |rewrite tget_tset_other; [reflexivity|intro; subst; rewrite N.eqb_refl in Eb; discriminate]].
-    + repeat bm H; inv H.
-      unfold table_map; simpl; destruct (N.eqb tb tb') eqn:Eb;
-        [apply N.eqb_eq in Eb; subst; rewrite tget_tset_same; simpl;
-         repeat match goal with Hx : tget _ _ = _ |- _ => rewrite Hx end; reflexivity
-        |rewrite tget_tset_other; [reflexivity|intro; subst; rewrite N.eqb_refl in Eb; discriminate]].
-    + repeat bm H; inv H.
-      unfold table_map; simpl; destruct (N.eq_dec tb tb') as [->|Hne];
-        [rewrite tget_tset_same; simpl; repeat match goal with Hx : tget _ _ = _ |- _ => rewrite Hx end; reflexivity
-        |rewrite tget_tset_other by exact Hne; reflexivity].
-    + inv H. reflexivity.
-    + bm H. inv H. reflexivity.
-  - destruct (nget t (s_at s)) as [[c [n'|]]|]; try discriminate.
-    destruct c; destruct nm; destruct n'; simpl in H; try discriminate; repeat bm H; inv H; reflexivity.
+  intros t l s s' tb H. destruct l as [c|nm].
+  - apply sstep_enter_inv in H. destruct H as [_ H].
+    explode_enter H; unfold table_map, apply_call; proj; tcases.
+  - apply sstep_sec_inv in H. destruct H as (c & _ & H).
+    destruct c; simpl in H; try discriminate; explode_sec H; unfold table_map; proj; tcases.
 Qed.
 
 Lemma srun_table : forall log s s' tb, srun log s = Some s' ->
@@ -238,58 +362,47 @@ Proof.
 Qed.
 
 (* per_table_independent: for every executable log (any interleaving of the threads' sections, with savepoint
-   calls and drops of other threads in between) the contents of each table are exactly its own operations applied
-   in order -- nothing another table's stream or a savepoint call does shows in it *)
+   calls, non-dirtying holders, deletes of other tables in between) the contents of each table are exactly its own
+   operations applied in order -- nothing another table's stream or a savepoint call does shows in it *)
+Theorem per_table_independent_full : forall pre tabs comm log s tb,
+  srun log (sinit_full pre tabs comm) = Some s ->
+  table_map s tb = spec_table_from (table_map (sinit_full pre tabs comm) tb) tb log.
+Proof. intros. unfold spec_table_from. apply (srun_table log _ _ tb H). Qed.
 Theorem per_table_independent : forall pre log s tb,
   srun log (sinit pre) = Some s -> table_map s tb = spec_table tb log.
 Proof. intros. unfold spec_table, spec_table_from. rewrite (srun_table log _ _ tb H). reflexivity. Qed.
-
-(* the same starting from tables that exist already: the committed contents, then the table's own operations *)
 Theorem per_table_independent_from : forall pre tabs log s tb,
   srun log (sinit_tables pre tabs) = Some s ->
   table_map s tb = spec_table_from (table_map (sinit_tables pre tabs) tb) tb log.
 Proof. intros. unfold spec_table_from. apply (srun_table log _ _ tb H). Qed.
 
-Theorem savepoint_tracking_consistent_from : forall pre tabs log s,
-  srun log (sinit_tables pre tabs) = Some s -> s_tracking s = false -> s_valid s = [] /\ s_dirty s = true.
-Proof.
-  intros pre tabs log s H Ht. pose proof (srun_sinv log _ _ (sinit_tables_sinv pre tabs) H) as J.
-  split; [apply (j_valid s J Ht)|apply (j_dirty s J Ht)].
-Qed.
-
 (* ================================================================ no page shared between tables *)
-Definition is_put (l : slabel) : option N := match l with LEnter (SPut tb _ _) => Some tb | _ => None end.
-
-Lemma sstep_pages : forall t l s s' tb, sstep t l s = Some s' ->
-  table_pages s' tb = (match is_put l with
-                       | Some tb' => if N.eqb tb tb' then s_next_page s :: table_pages s tb else table_pages s tb
-                       | None => table_pages s tb end) /\
-  s_next_page s' = (match is_put l with Some _ => s_next_page s + 1 | None => s_next_page s end).
+Lemma sstep_pages : forall t l s s', sstep t l s = Some s' ->
+  (s_next_page s' = s_next_page s /\ forall tb, table_pages s' tb = table_pages s tb \/ table_pages s' tb = []) \/
+  (exists tb0, s_next_page s' = s_next_page s + 1 /\ table_pages s' tb0 = s_next_page s :: table_pages s tb0 /\
+               forall tb, tb <> tb0 -> table_pages s' tb = table_pages s tb).
 Proof.
-  intros t l s s' tb H. unfold sstep in H. destruct l as [c|nm].
-  - destruct (nget t (s_at s)); [discriminate|].
-    destruct c as [tb'|tb' k v|tb' k|tb'|h|h]; simpl.
-    + repeat bm H; inv H; split; try reflexivity.
-      all: unfold table_pages; simpl; destruct (N.eq_dec tb tb') as [->|Hne];
-        [rewrite tget_tset_same; simpl; repeat match goal with Hx : tget _ _ = _ |- _ => rewrite Hx end; reflexivity
-        |rewrite tget_tset_other by exact Hne; reflexivity].
-    + repeat bm H; inv H; split; try reflexivity.
-      all: unfold table_pages; simpl; destruct (N.eqb tb tb') eqn:Eb;
-        [apply N.eqb_eq in Eb; subst; rewrite tget_tset_same; simpl;
-         repeat match goal with Hx : tget _ _ = _ |- _ => rewrite Hx end; reflexivity
-        |rewrite tget_tset_other; [reflexivity|intro; subst; rewrite N.eqb_refl in Eb; discriminate]].
-    + repeat bm H; inv H; split; try reflexivity.
-      unfold table_pages; simpl; destruct (N.eq_dec tb tb') as [->|Hne];
-        [rewrite tget_tset_same; simpl; repeat match goal with Hx : tget _ _ = _ |- _ => rewrite Hx end; reflexivity
-        |rewrite tget_tset_other by exact Hne; reflexivity].
-    + repeat bm H; inv H; split; try reflexivity.
-      unfold table_pages; simpl; destruct (N.eq_dec tb tb') as [->|Hne];
-        [rewrite tget_tset_same; simpl; repeat match goal with Hx : tget _ _ = _ |- _ => rewrite Hx end; reflexivity
-        |rewrite tget_tset_other by exact Hne; reflexivity].
-    + inv H. split; reflexivity.
-    + bm H. inv H. split; reflexivity.
-  - destruct (nget t (s_at s)) as [[c [n'|]]|]; try discriminate.
-    destruct c; destruct nm; destruct n'; simpl in H; try discriminate; repeat bm H; inv H; split; reflexivity.
+  intros t l s s' H.
+  assert (K : forall tb0 : N,
+    (s_next_page s' = s_next_page s /\ forall tb, table_pages s' tb = table_pages s tb \/ table_pages s' tb = []) \/
+    (s_next_page s' = s_next_page s + 1 /\ table_pages s' tb0 = s_next_page s :: table_pages s tb0 /\
+     forall tb, tb <> tb0 -> table_pages s' tb = table_pages s tb) ->
+    (s_next_page s' = s_next_page s /\ forall tb, table_pages s' tb = table_pages s tb \/ table_pages s' tb = []) \/
+    (exists tb0, s_next_page s' = s_next_page s + 1 /\ table_pages s' tb0 = s_next_page s :: table_pages s tb0 /\
+                 forall tb, tb <> tb0 -> table_pages s' tb = table_pages s tb)).
+  { intros tb0 [A|A]; [left; exact A|right; exists tb0; exact A]. }
+  destruct l as [c|nm].
+  - apply sstep_enter_inv in H. destruct H as [_ H].
+    explode_enter H;
+      match goal with
+      | |- context [SPut ?x _ _] => apply (K x)
+      | |- context [SOp ?x _ _] => apply (K x)
+      | _ => apply (K 0)
+      end; unfold table_pages; proj;
+      first [ left; split; [reflexivity|]; intro tbx; tcases; auto; fail
+            | right; split; [reflexivity|]; split; [tcases|intros tbx Hne; tcases] ].
+  - apply sstep_sec_inv in H. destruct H as (c & _ & H). apply (K 0). left.
+    destruct c; simpl in H; try discriminate; explode_sec H; unfold table_pages; proj; (split; [reflexivity|]); intro tbx; tcases; auto.
 Qed.
 
 Record pinv (s : sst) : Prop := {
@@ -301,27 +414,27 @@ Record pinv (s : sst) : Prop := {
 Lemma sstep_pinv : forall t l s s', pinv s -> sstep t l s = Some s' -> pinv s'.
 Proof.
   intros t l s s' P H.
-  assert (Hp : forall tb, table_pages s' tb = (match is_put l with
-                       | Some tb' => if N.eqb tb tb' then s_next_page s :: table_pages s tb else table_pages s tb
-                       | None => table_pages s tb end)) by (intro tb; apply (sstep_pages t l s s' tb H)).
-  pose proof (proj2 (sstep_pages t l s s' 0 H)) as Hn.
-  destruct (is_put l) as [tb'|].
+  destruct (sstep_pages t l s s' H) as [[Hn Hp]|(tb0 & Hn & H0 & Hp)].
+  - assert (Hin : forall tb p, In p (table_pages s' tb) -> In p (table_pages s tb)).
+    { intros tb p Hi. destruct (Hp tb) as [E|E]; rewrite E in Hi; [exact Hi|contradiction]. }
+    constructor.
+    + intros tb p Hi. rewrite Hn. apply (p_bound s P tb p). auto.
+    + intros tb. destruct (Hp tb) as [E|E]; rewrite E; [apply (p_nodup s P)|constructor].
+    + intros tb tb2 p Hne Hi Hi2. apply (p_disj s P tb tb2 p Hne); auto.
   - constructor.
-    + intros tb p Hin. rewrite Hp in Hin. rewrite Hn. destruct (N.eqb tb tb').
-      * destruct Hin as [<-|Hin]; [lia|]. pose proof (p_bound s P tb p Hin). lia.
-      * pose proof (p_bound s P tb p Hin). lia.
-    + intros tb. rewrite Hp. destruct (N.eqb tb tb'); [|apply (p_nodup s P)].
-      constructor; [|apply (p_nodup s P)]. intro Hin. pose proof (p_bound s P tb _ Hin). lia.
-    + intros tb tb2 p Hne Hin Hin2. rewrite Hp in Hin, Hin2.
-      destruct (N.eqb tb tb') eqn:E1; destruct (N.eqb tb2 tb') eqn:E2.
-      * apply N.eqb_eq in E1, E2. congruence.
-      * destruct Hin as [<-|Hin]; [pose proof (p_bound s P tb2 _ Hin2); lia|]. apply (p_disj s P tb tb2 p Hne Hin Hin2).
-      * destruct Hin2 as [<-|Hin2]; [pose proof (p_bound s P tb _ Hin); lia|]. apply (p_disj s P tb tb2 p Hne Hin Hin2).
-      * apply (p_disj s P tb tb2 p Hne Hin Hin2).
-  - constructor.
-    + intros tb p Hin. rewrite Hp in Hin. rewrite Hn. apply (p_bound s P tb p Hin).
-    + intros tb. rewrite Hp. apply (p_nodup s P).
-    + intros tb tb2 p Hne Hin Hin2. rewrite Hp in Hin, Hin2. apply (p_disj s P tb tb2 p Hne Hin Hin2).
+    + intros tb p Hi. rewrite Hn. destruct (N.eq_dec tb tb0) as [->|Hne].
+      * rewrite H0 in Hi. destruct Hi as [<-|Hi]; [lia|]. pose proof (p_bound s P tb0 p Hi). lia.
+      * rewrite (Hp tb Hne) in Hi. pose proof (p_bound s P tb p Hi). lia.
+    + intros tb. destruct (N.eq_dec tb tb0) as [->|Hne].
+      * rewrite H0. constructor; [|apply (p_nodup s P)]. intro Hi. pose proof (p_bound s P tb0 _ Hi). lia.
+      * rewrite (Hp tb Hne). apply (p_nodup s P).
+    + intros tb tb2 p Hne Hi Hi2.
+      destruct (N.eq_dec tb tb0) as [->|N1]; destruct (N.eq_dec tb2 tb0) as [->|N2]; try congruence.
+      * rewrite H0 in Hi. rewrite (Hp tb2 N2) in Hi2.
+        destruct Hi as [<-|Hi]; [pose proof (p_bound s P tb2 _ Hi2); lia|]. apply (p_disj s P tb0 tb2 p Hne Hi Hi2).
+      * rewrite H0 in Hi2. rewrite (Hp tb N1) in Hi.
+        destruct Hi2 as [<-|Hi2]; [pose proof (p_bound s P tb _ Hi); lia|]. apply (p_disj s P tb tb0 p Hne Hi Hi2).
+      * rewrite (Hp tb N1) in Hi. rewrite (Hp tb2 N2) in Hi2. apply (p_disj s P tb tb2 p Hne Hi Hi2).
 Qed.
 
 Lemma srun_pinv : forall log s s', pinv s -> srun log s = Some s' -> pinv s'.
@@ -330,15 +443,445 @@ Proof.
   destruct (sstep t l s) as [s1|] eqn:E; [|discriminate]. eapply IH; [|exact H]. eapply sstep_pinv; eauto.
 Qed.
 
+Lemma tget_init_pages : forall tabs comm tb x, tget tb (init_tables tabs comm) = Some x -> tb_pages x = [].
+Proof.
+  intros tabs comm tb x. unfold init_tables.
+  assert (A : forall l, (forall y, tget tb l = Some y -> tb_pages y = []) ->
+              forall y, tget tb (fold_right (fun x acc => tset (fst x) (seed_table (snd x) (cget (fst x) comm)) acc) l tabs) = Some y -> tb_pages y = []).
+  { induction tabs as [|a tabs IH]; intros l Hl y; simpl; [apply Hl|].
+    rewrite tget_tset. destruct (N.eqb tb (fst a)); [intro E; inv E; reflexivity|apply IH; exact Hl]. }
+  apply A. clear. induction comm as [|a comm IH]; intros y; simpl; [discriminate|].
+  rewrite tget_tset. destruct (N.eqb tb (fst a)); [intro E; inv E; reflexivity|apply IH].
+Qed.
+
 (* no_shared_page: the allocator step is atomic, so whatever the interleaving no page belongs to two tables
    and no table holds a page twice *)
+Theorem no_shared_page_full : forall pre tabs comm log s,
+  srun log (sinit_full pre tabs comm) = Some s ->
+  (forall tb, NoDup (table_pages s tb)) /\
+  (forall tb tb' p, tb <> tb' -> In p (table_pages s tb) -> ~ In p (table_pages s tb')).
+Proof.
+  intros pre tabs comm log s H.
+  assert (E : forall tb, table_pages (sinit_full pre tabs comm) tb = []).
+  { intro tb. unfold table_pages. simpl. destruct (tget tb (init_tables tabs comm)) eqn:E; [|reflexivity].
+    eapply tget_init_pages; eauto. }
+  assert (P0 : pinv (sinit_full pre tabs comm)).
+  { constructor; intros; rewrite ?E in *; try constructor; try contradiction. }
+  pose proof (srun_pinv log _ _ P0 H) as P. split; [apply (p_nodup s P)|apply (p_disj s P)].
+Qed.
 Theorem no_shared_page : forall pre log s,
   srun log (sinit pre) = Some s ->
   (forall tb, NoDup (table_pages s tb)) /\
   (forall tb tb' p, tb <> tb' -> In p (table_pages s tb) -> ~ In p (table_pages s tb')).
+Proof. intros pre log s. apply no_shared_page_full. Qed.
+
+(* ================================================================ freed pages: nothing lost, nothing twice *)
+Definition cnt (x : N) (l : list N) : nat := count_occ N.eq_dec l x.
+Lemma cnt_app : forall x a b, cnt x (a ++ b) = (cnt x a + cnt x b)%nat.
+Proof. intros; unfold cnt; apply count_occ_app. Qed.
+Lemma cnt_nil : forall x, cnt x [] = 0%nat.
+Proof. reflexivity. Qed.
+Arguments cnt : simpl never.
+
+Lemma pages_of_todo_app : forall a b, pages_of_todo (a ++ b) = pages_of_todo a ++ pages_of_todo b.
+Proof. intros. unfold pages_of_todo. apply flat_map_app. Qed.
+
+Lemma pending_tset_gen : forall k v old l x,
+  (tget k l = Some old \/ (tget k l = None /\ pending_of (k, old) = [])) ->
+  (cnt x (flat_map pending_of (tset k v l)) + cnt x (pending_of (k, old)) =
+   cnt x (flat_map pending_of l) + cnt x (pending_of (k, v)))%nat.
 Proof.
-  intros pre log s H.
-  assert (P0 : pinv (sinit pre)).
-  { constructor; unfold table_pages; simpl; intros; try constructor; try contradiction; auto. }
-  pose proof (srun_pinv log _ _ P0 H) as P. split; [apply (p_nodup s P)|apply (p_disj s P)].
+  induction l as [|[k2 v2] l IH]; simpl; intros x H.
+  - destruct H as [H|[_ H]]; [discriminate|]. rewrite H, app_nil_r, !cnt_nil. lia.
+  - destruct (N.eqb k k2) eqn:E.
+    + destruct H as [H|[H _]]; [|discriminate]. inv H. simpl. rewrite !cnt_app. unfold pending_of. simpl. lia.
+    + simpl. rewrite !cnt_app. specialize (IH x H). lia.
+Qed.
+
+Lemma in_tset : forall k v l k' x, In (k', x) (tset k v l) -> (k' = k /\ x = v) \/ In (k', x) l.
+Proof.
+  induction l as [|[k2 v2] l IH]; simpl; intros k' x H.
+  - destruct H as [H|[]]. inv H. auto.
+  - destruct (N.eqb k k2) eqn:E; simpl in H.
+    + destruct H as [H|H]; [inv H; auto|auto].
+    + destruct H as [H|H]; [auto|]. destruct (IH k' x H); auto.
+Qed.
+Lemma tset_in_self : forall k v l, In (k, v) (tset k v l).
+Proof. induction l as [|[k2 v2] l IH]; simpl; [auto|]. destruct (N.eqb k k2); simpl; auto. Qed.
+Lemma tset_keys : forall k v l k', In k' (map fst (tset k v l)) -> k' = k \/ In k' (map fst l).
+Proof.
+  intros k v l k' H. apply in_map_iff in H. destruct H as ([k2 x] & <- & H). simpl.
+  destruct (in_tset k v l k2 x H) as [[-> _]|H']; [auto|]. right. apply in_map_iff. exists (k2, x). auto.
+Qed.
+Lemma tset_nodup : forall k v l, NoDup (map fst l) -> NoDup (map fst (tset k v l)).
+Proof.
+  induction l as [|[k2 v2] l IH]; simpl; intros H.
+  - constructor; [intros []|constructor].
+  - inv H. destruct (N.eqb k k2) eqn:E; simpl.
+    + apply N.eqb_eq in E. subst. constructor; assumption.
+    + constructor; [|auto]. intro Hin. destruct (tset_keys k v l k2 Hin) as [->|Hin']; [rewrite N.eqb_refl in E; discriminate|contradiction].
+Qed.
+Lemma tget_some_in : forall k l x, tget k l = Some x -> In (k, x) l.
+Proof.
+  induction l as [|[k2 v2] l IH]; simpl; intros x H; [discriminate|].
+  destruct (N.eqb k k2) eqn:E; [apply N.eqb_eq in E; inv H; auto|auto].
+Qed.
+Lemma tget_in : forall k l x, NoDup (map fst l) -> In (k, x) l -> tget k l = Some x.
+Proof.
+  induction l as [|[k2 v2] l IH]; simpl; intros x Hn H; [contradiction|]. inv Hn.
+  destruct H as [H|H].
+  - inv H. rewrite N.eqb_refl. reflexivity.
+  - destruct (N.eqb k k2) eqn:E; [|auto]. apply N.eqb_eq in E. subst. exfalso. apply H2. apply in_map_iff. exists (k2, x). auto.
+Qed.
+
+Definition works_on (c : scall) (k : N) : Prop :=
+  match c with SOp tb _ _ => tb = k | SDelete tb _ _ => tb = k | _ => False end.
+
+Record finv (s : sst) : Prop := {
+  f_flag : s_try_merge s = false;
+  f_keys : NoDup (map fst (s_tables s));
+  f_local : forall k x, In (k, x) (s_tables s) -> tb_local x = [];
+  f_idle : forall k x, In (k, x) (s_tables s) -> tb_todo x <> [] -> exists t c n, nget t (s_at s) = Some (c, n) /\ works_on c k;
+  f_perm : forall p, (cnt p (s_freed s) + cnt p (pending s) = cnt p (s_replaced s))%nat
+}.
+
+(* a step of thread t that rewrites the entry of table k *)
+Lemma finv_update1 : forall s s' t k v old,
+  finv s ->
+  s_try_merge s' = s_try_merge s ->
+  s_tables s' = tset k v (s_tables s) ->
+  (tget k (s_tables s) = Some old \/ (tget k (s_tables s) = None /\ old = empty_table)) ->
+  tb_local v = [] ->
+  (tb_todo v <> [] -> (exists c n, nget t (s_at s') = Some (c, n) /\ works_on c k) \/ tb_todo v = tb_todo old) ->
+  (forall t', t' <> t -> nget t' (s_at s') = nget t' (s_at s)) ->
+  (forall c n, nget t (s_at s) = Some (c, n) ->
+     (exists n', nget t (s_at s') = Some (c, n')) \/ (forall k', works_on c k' -> k' = k /\ tb_todo v = [])) ->
+  (forall p, (cnt p (s_freed s') + cnt p (pending_of (k, v)) + cnt p (s_replaced s) =
+              cnt p (s_freed s) + cnt p (pending_of (k, old)) + cnt p (s_replaced s'))%nat) ->
+  finv s'.
+Proof.
+  intros s s' t k v old F Hf Ht Ho Hl Hw Hat Hc Hp.
+  assert (Hold : forall x, In (k, x) (s_tables s) -> x = old).
+  { intros x Hi. destruct Ho as [Ho|[Ho _]]; rewrite (tget_in k _ x (f_keys s F) Hi) in Ho; congruence. }
+  constructor.
+  - rewrite Hf. apply F.
+  - rewrite Ht. apply tset_nodup. apply F.
+  - intros k' x Hi. rewrite Ht in Hi. destruct (in_tset _ _ _ _ _ Hi) as [[-> ->]|Hi']; [exact Hl|apply (f_local s F k' x Hi')].
+  - intros k' x Hi Hne. rewrite Ht in Hi.
+    (* a witness of the old state survives unless it is t and t's call has ended *)
+    assert (Hkeep : forall k2 x2, In (k2, x2) (s_tables s) -> tb_todo x2 <> [] -> (k2 = k -> tb_todo v <> []) ->
+                    exists t0 c n, nget t0 (s_at s') = Some (c, n) /\ works_on c k2).
+    { intros k2 x2 Hi2 Hne2 Hk. destruct (f_idle s F k2 x2 Hi2 Hne2) as (t0 & c & n & Hg & Hwo).
+      destruct (Nat.eq_dec t0 t) as [->|Hd].
+      - destruct (Hc c n Hg) as [[n' Hg']|Hend]; [exists t, c, n'; auto|].
+        destruct (Hend k2 Hwo) as [-> Hv]. exfalso. apply (Hk eq_refl). exact Hv.
+      - exists t0, c, n. rewrite (Hat t0 Hd). auto. }
+    destruct (N.eq_dec k' k) as [->|Hk].
+    + (* the rewritten entry (the only one with key k) *)
+      assert (Hx : x = v).
+      { assert (Hn : NoDup (map fst (tset k v (s_tables s)))) by (apply tset_nodup; apply F).
+        pose proof (tget_in k _ x Hn Hi) as G1. rewrite tget_tset_same in G1. congruence. }
+      subst x.
+      destruct (Hw Hne) as [(c & n & Hg & Hwo)|He]; [exists t, c, n; auto|].
+      destruct Ho as [Ho|[_ ->]]; [|rewrite He in Hne; simpl in Hne; congruence].
+      apply (Hkeep k old (tget_some_in _ _ _ Ho)); [rewrite <- He; exact Hne|intros _; exact Hne].
+    + destruct (in_tset _ _ _ _ _ Hi) as [[-> _]|Hi']; [congruence|].
+      apply (Hkeep k' x Hi' Hne). intros ->. congruence.
+  - intros p. unfold pending. rewrite Ht.
+    assert (Hg : tget k (s_tables s) = Some old \/ tget k (s_tables s) = None /\ pending_of (k, old) = []).
+    { destruct Ho as [Ho|[Ho ->]]; [left; exact Ho|right; split; [exact Ho|reflexivity]]. }
+    pose proof (pending_tset_gen k v old (s_tables s) p Hg) as G. pose proof (f_perm s F p) as G0. unfold pending in G0.
+    specialize (Hp p). lia.
+Qed.
+
+(* a step of thread t that leaves the tables alone *)
+Lemma finv_update0 : forall s s' t,
+  finv s -> s_try_merge s' = s_try_merge s -> s_tables s' = s_tables s -> s_freed s' = s_freed s -> s_replaced s' = s_replaced s ->
+  (forall t', t' <> t -> nget t' (s_at s') = nget t' (s_at s)) ->
+  (forall c n, nget t (s_at s) = Some (c, n) -> (exists n', nget t (s_at s') = Some (c, n')) \/ (forall k', ~ works_on c k')) ->
+  finv s'.
+Proof.
+  intros s s' t F Hf Ht Hfr Hr Hat Hc. constructor.
+  - rewrite Hf. apply F.
+  - rewrite Ht. apply F.
+  - rewrite Ht. apply F.
+  - rewrite Ht. intros k x Hi Hne. destruct (f_idle s F k x Hi Hne) as (t0 & c & n & Hg & Hwo).
+    destruct (Nat.eq_dec t0 t) as [->|Hd].
+    + destruct (Hc c n Hg) as [[n' Hg']|Hend]; [exists t, c, n'; auto|]. exfalso. apply (Hend k Hwo).
+    + exists t0, c, n. rewrite (Hat t0 Hd). auto.
+  - intro p. unfold pending. rewrite Hfr, Ht, Hr. apply (f_perm s F).
+Qed.
+
+Ltac at_frame :=
+  first [ solve [intros ? Hne; proj; first [rewrite at_other_fin by exact Hne | rewrite at_other_set by exact Hne]; reflexivity]
+        | solve [intros; proj; reflexivity] ].
+(* the call in progress goes on (left) or, when it ends, was not working on a table / leaves its table without sections *)
+Ltac at_cont Hat :=
+  let c := fresh "c" in let n := fresh "n" in let Hg := fresh "Hg" in
+  intros c n Hg; proj; rewrite Hat in Hg;
+  first [ discriminate Hg
+        | injection Hg as <- <-;
+          first [ solve [left; eexists; proj; apply at_self_set]
+                | solve [right; simpl; intros ? []]
+                | solve [right; simpl; intros ? <-; split; reflexivity] ] ].
+Ltac cnt_solve :=
+  let p := fresh "p" in
+  intro p; proj; unfold pending_of, with_free, with_owner, with_map, with_pages; simpl;
+  repeat match goal with
+  | E : ?a ++ ?b = ?c |- _ =>
+    let E' := fresh "Ec" in
+    pose proof (f_equal (fun x => cnt p (pages_of_todo x)) E) as E'; cbv beta in E';
+    rewrite pages_of_todo_app, cnt_app in E'; clear E
+  end;
+  repeat match goal with E : tb_todo ?x = _ |- _ => rewrite E in * end;
+  repeat match goal with E : tb_local ?x = _ |- _ => rewrite E in * end;
+  unfold pages_of_todo in *; simpl in *; rewrite ?flat_map_app in *; rewrite ?cnt_app in *; simpl in *;
+  rewrite ?cnt_app, ?cnt_nil in *; lia.
+
+Ltac fin_close Hat :=
+  match goal with
+  | |- _ \/ (_ /\ _ = empty_table) => first [left; assumption | right; split; [assumption|reflexivity]]
+  | |- tb_local _ = [] => simpl; first [reflexivity | eauto]
+  | |- tb_todo _ <> [] -> _ =>
+    simpl; first [ solve [intros _; right; reflexivity]
+                 | solve [let Hne := fresh "Hne" in intro Hne; exfalso; apply Hne; first [reflexivity|assumption]]
+                 | solve [intros _; left; do 2 eexists; split; [proj; apply at_self_set|reflexivity]] ]
+  | |- forall t', t' <> _ -> _ => at_frame
+  | |- forall c n, nget _ _ = Some (c, n) -> _ => at_cont Hat
+  | |- forall p, (_ = _)%nat => cnt_solve
+  | |- _ = _ => proj; reflexivity
+  end.
+
+Lemma sstep_finv : forall t l s s', finv s -> sstep t l s = Some s' -> finv s'.
+Proof.
+  intros t l s s' F H.
+  assert (Floc : forall k x, tget k (s_tables s) = Some x -> tb_local x = []).
+  { intros k x Hx. apply (f_local s F k x). apply tget_some_in. exact Hx. }
+  destruct l as [c|nm].
+  - apply sstep_enter_inv in H. destruct H as [Hat H].
+    destruct c; simpl in H.
+    + (* open_table *)
+      explode_enter H.
+      * apply (finv_update0 s _ t F); fin_close Hat.
+      * apply (finv_update1 s _ t tb (with_owner t0 (Some t)) t0 F); fin_close Hat.
+      * apply (finv_update1 s _ t tb (with_owner empty_table (Some t)) empty_table F); fin_close Hat.
+    + (* insert / remove without page effects *)
+      explode_enter H. eapply (finv_update1 s _ t tb _ t0 F); fin_close Hat.
+    + explode_enter H. eapply (finv_update1 s _ t tb _ t0 F); fin_close Hat.
+    + (* close *)
+      explode_enter H. match goal with Ex : tget _ _ = Some _ |- _ => pose proof (Floc _ _ Ex) as Hloc end. eapply (finv_update1 s _ t tb _ t0 F); fin_close Hat.
+    + explode_enter H. apply (finv_update0 s _ t F); fin_close Hat.
+    + explode_enter H. apply (finv_update0 s _ t F); fin_close Hat.
+    + (* a table operation with freed_pages sections *)
+      explode_enter H.
+      all: try match goal with Ex : tget _ _ = Some _ |- _ => pose proof (Floc _ _ Ex) as Hloc end.
+      all: eapply (finv_update1 s _ t tb _ t0 F); fin_close Hat.
+    + explode_enter H; apply (finv_update0 s _ t F); fin_close Hat.
+    + (* delete_table: the catalog's entry, then the table's *)
+      explode_enter H.
+      all: match goal with Ex : N.eqb _ _ = false |- _ => apply N.eqb_neq in Ex end.
+      all: match goal with Em : tget master _ = Some ?mt, Et : tget ?tbx _ = Some ?tt |- _ =>
+             lazymatch tbx with master => fail | _ => idtac end;
+             assert (F1 : finv (set_tables s (tset master (with_free mt (skipn (N.to_nat rm) (tb_committed mt)) (tb_local mt) (tb_todo mt)) (s_tables s))));
+             [ eapply (finv_update1 s _ t master _ mt F); proj; try reflexivity;
+               [left; assumption | simpl; eauto | simpl; auto | intros c0 n0 Hg; left; exists n0; exact Hg]
+             | assert (G : tget tbx (tset master (with_free mt (skipn (N.to_nat rm) (tb_committed mt)) (tb_local mt) (tb_todo mt)) (s_tables s)) = Some tt)
+                 by (rewrite tget_tset_other by assumption; assumption);
+               pose proof (Floc _ _ Et) as Hloc;
+               eapply (finv_update1 _ _ t tbx _ tt F1); fin_close Hat ]
+           end.
+  - apply sstep_sec_inv in H. destruct H as (c & Hat & H).
+    destruct c; simpl in H; try discriminate.
+    + explode_sec H; apply (finv_update0 s _ t F); fin_close Hat.
+    + explode_sec H; apply (finv_update0 s _ t F); fin_close Hat.
+    + explode_sec H; apply (finv_update0 s _ t F); fin_close Hat.
+    + (* the sections of a table operation *)
+      pose proof (f_flag s F) as Hfl.
+      explode_sec H; try congruence.
+      all: try match goal with Ex : tget _ _ = Some _ |- _ => pose proof (Floc _ _ Ex) as Hloc end.
+      all: first [ apply (finv_update0 s _ t F); fin_close Hat; fail
+                 | eapply (finv_update1 s _ t tb _ t0 F); fin_close Hat ].
+    + explode_sec H; apply (finv_update0 s _ t F); fin_close Hat.
+    + (* delete_table *)
+      explode_sec H.
+      all: try match goal with Ex : tget _ _ = Some _ |- _ => pose proof (Floc _ _ Ex) as Hloc end.
+      all: first [ apply (finv_update0 s _ t F); fin_close Hat; fail
+                 | eapply (finv_update1 s _ t tb _ t0 F); fin_close Hat ].
+Qed.
+
+Lemma srun_finv : forall log s s', finv s -> srun log s = Some s' -> finv s'.
+Proof.
+  induction log as [|[t l] log IH]; intros s s' F H; simpl in H; [inv H; exact F|].
+  destruct (sstep t l s) as [s1|] eqn:E; [|discriminate]. eapply IH; [|exact H]. eapply sstep_finv; eauto.
+Qed.
+
+Definition tables_ok (l : list (N * table)) : Prop :=
+  NoDup (map fst l) /\ forall k x, In (k, x) l -> tb_local x = [] /\ tb_todo x = [].
+Lemma fold_tset_ok : forall A (f : A -> N) (g : A -> table) l0,
+  (forall a, tb_local (g a) = [] /\ tb_todo (g a) = []) -> tables_ok l0 ->
+  forall l, tables_ok (fold_right (fun x acc => tset (f x) (g x) acc) l0 l).
+Proof.
+  intros A f g l0 Hg H0. induction l as [|a l IH]; simpl; [exact H0|]. destruct IH as [I1 I2]. split.
+  - apply tset_nodup. exact I1.
+  - intros k x Hi. destruct (in_tset _ _ _ _ _ Hi) as [[_ ->]|Hi']; [apply Hg|eauto].
+Qed.
+Lemma init_tables_ok : forall tabs comm, tables_ok (init_tables tabs comm).
+Proof.
+  intros tabs comm. unfold init_tables.
+  apply (fold_tset_ok _ (fun x => fst x) (fun x => seed_table (snd x) (cget (fst x) comm))); [intros; split; reflexivity|].
+  apply (fold_tset_ok _ (fun y => fst y) (fun y => seed_table [] (snd y))); [intros; split; reflexivity|].
+  split; [constructor|intros k x []].
+Qed.
+
+Lemma flat_map_nil : forall A B (f : A -> list B) l, (forall x, In x l -> f x = []) -> flat_map f l = [].
+Proof. induction l as [|a l IH]; simpl; intros H; [reflexivity|]. rewrite (H a (or_introl eq_refl)), IH; auto. Qed.
+
+Lemma sinit_full_finv : forall pre tabs comm, finv (sinit_full pre tabs comm).
+Proof.
+  intros pre tabs comm. destruct (init_tables_ok tabs comm) as [K1 K2]. constructor; simpl.
+  - reflexivity.
+  - exact K1.
+  - intros k x Hi. apply (K2 k x Hi).
+  - intros k x Hi Hne. destruct (K2 k x Hi) as [_ E]. congruence.
+  - intro p. unfold pending. simpl. rewrite flat_map_nil; [reflexivity|].
+    intros [k x] Hi. unfold pending_of. simpl. destruct (K2 k x Hi) as [-> ->]. reflexivity.
+Qed.
+
+(* when no call is in progress nothing is pending: every replaced page is in the transaction-wide list *)
+Lemma idle_pending : forall s, finv s -> s_at s = [] -> pending s = [].
+Proof.
+  intros s F Hat. unfold pending. apply flat_map_nil. intros [k x] Hi. unfold pending_of. simpl.
+  rewrite (f_local s F k x Hi). destruct (tb_todo x) eqn:E; [reflexivity|].
+  destruct (f_idle s F k x Hi) as (t & c & n & Hg & _); [rewrite E; discriminate|]. rewrite Hat in Hg. discriminate.
+Qed.
+
+(* ---------------------------------------------------------------- what the log says was replaced *)
+Lemma firstn_add : forall A a b (l : list A), firstn (a + b) l = firstn a l ++ firstn b (skipn a l).
+Proof. induction a as [|a IH]; intros b l; simpl; [reflexivity|]. destruct l; simpl; [destruct b; reflexivity|]. rewrite IH. reflexivity. Qed.
+Lemma skipn_add : forall A a b (l : list A), skipn (a + b) l = skipn b (skipn a l).
+Proof. induction a as [|a IH]; intros b l; simpl; [reflexivity|]. destruct l; simpl; [destruct b; reflexivity|]. apply IH. Qed.
+
+Lemma take_secs_spec : forall secs comm todo comm', take_secs secs comm = (todo, comm') ->
+  pages_of_todo todo = firstn (sum_secs secs) comm /\ comm' = skipn (sum_secs secs) comm.
+Proof.
+  induction secs as [|[m n] secs IH]; intros comm todo comm' H; simpl in H.
+  - inv H. split; reflexivity.
+  - destruct (take_secs secs (skipn (N.to_nat n) comm)) as [rest c2] eqn:E. inv H.
+    destruct (IH _ _ _ E) as [I1 I2]. simpl. rewrite firstn_add, skipn_add. unfold pages_of_todo in *. simpl. rewrite I1. split; [reflexivity|exact I2].
+Qed.
+
+Definition repl_step (comm : N -> list N) (l : slabel) : list N :=
+  match l with
+  | LEnter (SOp tb _ secs) => firstn (sum_secs secs) (comm tb)
+  | LEnter (SDelete tb rm b) => firstn (N.to_nat rm) (comm master) ++ firstn (N.to_nat b) (comm tb)
+  | _ => []
+  end.
+Definition comm_step (comm : N -> list N) (l : slabel) : N -> list N :=
+  match l with
+  | LEnter (SOp tb _ secs) => fun x => if N.eqb x tb then skipn (sum_secs secs) (comm tb) else comm x
+  | LEnter (SDelete tb rm b) =>
+    fun x => if N.eqb x tb then skipn (N.to_nat b) (comm tb) else if N.eqb x master then skipn (N.to_nat rm) (comm master) else comm x
+  | _ => comm
+  end.
+Lemma repl_log_cons : forall comm t l r, repl_log comm ((t, l) :: r) = repl_step comm l ++ repl_log (comm_step comm l) r.
+Proof. intros comm t l r. destruct l as [c|n]; [destruct c|]; simpl; rewrite <- ?app_assoc; reflexivity. Qed.
+Lemma repl_log_ext : forall log c1 c2, (forall x, c1 x = c2 x) -> repl_log c1 log = repl_log c2 log.
+Proof.
+  induction log as [|[t l] log IH]; intros c1 c2 H; [reflexivity|].
+  rewrite !repl_log_cons. f_equal.
+  - destruct l as [c|n]; [destruct c|]; simpl; rewrite ?H; reflexivity.
+  - apply IH. intro x. destruct l as [c|n]; [destruct c|]; simpl; rewrite ?H; try reflexivity.
+Qed.
+
+Lemma sstep_replaced : forall t l s s', sstep t l s = Some s' ->
+  s_replaced s' = s_replaced s ++ repl_step (table_committed s) l /\
+  forall x, table_committed s' x = comm_step (table_committed s) l x.
+Proof.
+  intros t l s s' H. destruct l as [c|nm].
+  - apply sstep_enter_inv in H. destruct H as [_ H].
+    destruct c; simpl in H.
+    1-6,8: explode_enter H; unfold table_committed; proj; simpl; rewrite ?app_nil_r; (split; [reflexivity|]); intro x; tcases.
+    + (* a table operation *)
+      explode_enter H.
+      all: match goal with Ex : take_secs _ _ = _ |- _ => destruct (take_secs_spec _ _ _ _ Ex) as [T1 T2] end.
+      all: unfold table_committed; proj; simpl.
+      all: match goal with Ex : tget _ _ = Some _ |- _ => rewrite Ex end.
+      all: rewrite T1; (split; [reflexivity|]); intro x; rewrite ?tget_tset; destruct (N.eqb x tb) eqn:Eb;
+        [apply N.eqb_eq in Eb; subst x; simpl; exact T2|reflexivity].
+    + (* delete_table *)
+      explode_enter H.
+      all: match goal with Ex : N.eqb _ _ = false |- _ => pose proof Ex as Hne; apply N.eqb_neq in Hne end.
+      all: unfold table_committed; proj; simpl.
+      all: repeat match goal with Ex : tget _ _ = Some _ |- _ => rewrite Ex end.
+      all: unfold pages_of_todo; simpl; rewrite ?app_nil_r.
+      all: try match goal with Ex : firstn _ _ = _ |- _ => rewrite Ex end.
+      all: (split; [reflexivity|]); intro x; rewrite ?tget_tset; destruct (N.eqb x tb) eqn:Eb; [reflexivity|];
+        destruct (N.eqb x master) eqn:Em; reflexivity.
+  - apply sstep_sec_inv in H. destruct H as (c & _ & H). simpl. rewrite app_nil_r.
+    destruct c; simpl in H; try discriminate; explode_sec H; unfold table_committed; proj; (split; [reflexivity|]); intro x; tcases.
+Qed.
+
+Lemma srun_replaced : forall log s s', srun log s = Some s' ->
+  s_replaced s' = s_replaced s ++ repl_log (table_committed s) log.
+Proof.
+  induction log as [|[t l] log IH]; intros s s' H; simpl in H.
+  - inv H. simpl. rewrite app_nil_r. reflexivity.
+  - destruct (sstep t l s) as [s1|] eqn:E; [|discriminate].
+    destruct (sstep_replaced t l s s1 E) as [R1 R2].
+    rewrite (IH s1 s' H), R1, repl_log_cons, <- app_assoc. f_equal. f_equal. apply repl_log_ext. exact R2.
+Qed.
+
+(* freed_pages_exact: for every executable log of the code as it is, at every moment the replaced pages are exactly the
+   transaction-wide list plus what operations in progress still hold, as multisets; and when every call has returned
+   (the state the commit finds) the transaction-wide list IS, as a multiset, what the table operations of the log replaced:
+   nothing lost, nothing twice *)
+Theorem freed_pages_accounted : forall pre tabs comm log s,
+  srun log (sinit_full pre tabs comm) = Some s ->
+  Permutation (s_freed s ++ pending s) (repl_log (table_committed (sinit_full pre tabs comm)) log).
+Proof.
+  intros pre tabs comm log s H.
+  pose proof (srun_finv log _ _ (sinit_full_finv pre tabs comm) H) as F.
+  pose proof (srun_replaced log _ _ H) as R. simpl in R.
+  apply (Permutation_count_occ N.eq_dec). intro p. fold (cnt p (s_freed s ++ pending s)).
+  rewrite cnt_app, (f_perm s F p), R. reflexivity.
+Qed.
+
+Theorem freed_pages_exact : forall pre tabs comm log s,
+  srun log (sinit_full pre tabs comm) = Some s -> s_at s = [] ->
+  Permutation (s_freed s) (repl_log (table_committed (sinit_full pre tabs comm)) log).
+Proof.
+  intros pre tabs comm log s H Hat.
+  pose proof (freed_pages_accounted pre tabs comm log s H) as P.
+  rewrite (idle_pending s (srun_finv log _ _ (sinit_full_finv pre tabs comm) H) Hat), app_nil_r in P. exact P.
+Qed.
+
+(* ================================================================ blocked steps *)
+(* a step that `sblocked` calls blocked has no successor: the thread sleeps on the mutex, nothing changes *)
+Lemma sblocked_sound : forall t l s, sblocked t l s = true -> sstep t l s = None.
+Proof.
+  intros t l s H. unfold sblocked in H. unfold sstep.
+  destruct l as [c|n].
+  - destruct (nget t (s_at s)); [reflexivity|].
+    destruct c; try discriminate; simpl; simpl in H.
+    + apply negb_true_iff in H. rewrite H. reflexivity.
+    + apply negb_true_iff in H. rewrite H. reflexivity.
+    + destruct (N.leb k 1); apply negb_true_iff in H; rewrite H; reflexivity.
+    + apply negb_true_iff in H. rewrite H. reflexivity.
+  - destruct (nget t (s_at s)) as [[c [n'|]]|]; try discriminate.
+    destruct (sname_beq n n') eqn:E; [|reflexivity]. apply sname_beq_eq in E. subst n'.
+    destruct c; try discriminate; destruct n; try discriminate; simpl; simpl in H.
+    + apply andb_true_iff in H. destruct H as [H1 H2]. apply negb_true_iff in H1, H2. rewrite H1, H2. reflexivity.
+    + apply negb_true_iff in H. rewrite H. reflexivity.
+    + unfold sec_op. destruct (tget tb (s_tables s)); [|reflexivity].
+      apply andb_true_iff in H. destruct H as [H1 H2]. apply negb_true_iff in H1, H2.
+      destruct (tb_todo t0) as [|[[] ?] ?]; try reflexivity.
+      unfold flock_free in H1. destruct (s_flock s); [|discriminate]. rewrite H2. reflexivity.
+    + unfold sec_op. destruct (tget tb (s_tables s)); [|reflexivity]. apply negb_true_iff in H.
+      destruct (tb_todo t0) as [|[[] ?] ?]; try reflexivity. rewrite H. reflexivity.
+    + apply andb_true_iff in H. destruct H as [H1 H2]. apply negb_true_iff in H1, H2.
+      unfold sec_hold. destruct (holds s t); [|reflexivity]. rewrite H1, H2. reflexivity.
+    + unfold sec_delete. destruct (holds s t); [|reflexivity]. destruct (tget tb (s_tables s)); [|reflexivity].
+      apply negb_true_iff in H. destruct (tb_todo t0) as [|[[] ?] ?]; try reflexivity. rewrite H. reflexivity.
+    + unfold sec_delete. destruct (holds s t); [|reflexivity]. destruct (tget tb (s_tables s)); [|discriminate].
+      destruct (tb_todo t0) as [|[[] ?] ?]; try discriminate; try reflexivity. apply negb_true_iff in H. rewrite H. reflexivity.
 Qed.
